@@ -9,7 +9,7 @@
             | pushref D <ci> <s> | mount D <ci|-> | preds D | bresolve <s> | bfetchref <s>
        D    = <mt> <dg> <sz>
    Seek case:
-     <id> S <content> <prof:5 bits> <via:0 Fetch|1 blob FetchReference> <nmodes> (<chunk> <eof-with-data:0|1>)* <nops> (r <n> | s <off> <0|1|2> | c)*
+     <id> S <content> <prof:5 bits> <via:0 Fetch|1 blob FetchReference> <K: - | j field [arg]> <nmodes> (<chunk> <eof-with-data:0|1>)* <nops> (r <n> | s <off> <0|1|2> | c)*
        (the i-th response body behaves as mode i mod nmodes; r = ONE Read call with a buffer of n bytes)
    Request-grammar case (the formal [allowed] against the harness's endpoint table):
      <id> A <METHOD> <repo> <epkind> <arg> <digest> <mountd> <from> <ctype> <clen> <ra> <rb> <body>
@@ -20,8 +20,31 @@
 let z_of_int (i : int) : z =
   if i = 0 then Z0 else if i > 0 then Zpos (pos_of_int i) else Zneg (pos_of_int (-i))
 
+(* decimal string (possibly beyond OCaml's int) -> Coq Z, digit by digit *)
+let z_of_string (s : string) : z =
+  let neg = String.length s > 0 && s.[0] = '-' in
+  let ds = if neg then String.sub s 1 (String.length s - 1) else s in
+  let ten = z_of_int 10 in
+  let acc = ref Z0 in
+  String.iter (fun ch -> acc := Z.add (Z.mul !acc ten) (z_of_int (Char.code ch - 48))) ds;
+  if neg then Z.opp !acc else !acc
+
 let hx = hex_of_str
-let show_n x = string_of_int (int_of_n x)
+(* decimal printing of N without going through OCaml's 63-bit int *)
+let dec_double_plus (s : string) (carry0 : int) : string =
+  let b = Bytes.of_string s in
+  let carry = ref carry0 in
+  for i = Bytes.length b - 1 downto 0 do
+    let v = (Char.code (Bytes.get b i) - 48) * 2 + !carry in
+    Bytes.set b i (Char.chr (48 + v mod 10)); carry := v / 10
+  done;
+  (if !carry > 0 then string_of_int !carry else "") ^ Bytes.to_string b
+let rec dec_of_pos (p : positive) : string =
+  match p with
+  | XH -> "1"
+  | XO q -> dec_double_plus (dec_of_pos q) 0
+  | XI q -> dec_double_plus (dec_of_pos q) 1
+let show_n x = match x with N0 -> "0" | Npos p -> dec_of_pos p
 let show_opt f o = match o with Some x -> f x | None -> "-"
 let show_ostr o = match o with Some [] -> "-" | Some s -> hx s | None -> "-"
 
@@ -53,7 +76,8 @@ let show_resp r =
     (if err then "-" else show_opt show_n r.r_clen) (show_ostr r.r_dig)
     (show_opt (fun (rp, e) -> hx rp ^ "+" ^ show_ep e) r.r_loc)
     (if r.r_ar then "1" else "0") (show_ostr r.r_subj) (show_descs r.r_refs)
-    (if err then "-" else hx r.r_body)
+    (* of an error response only the error code NAME_UNKNOWN is observable *)
+    (if err && r.r_body <> name_unknown then "-" else hx r.r_body)
 
 exception Unjudged
 
@@ -83,6 +107,21 @@ let rec is_prefix p s = match p, s with
 let parse_mt (s : str) : str option =
   if s = [] || is_prefix garbage s then None else Some s
 
+let parse_corruption next f =
+  match f with
+  | "dig-other" -> KDigOther (str_of_hex (next ()))
+  | "dig-garbage" -> KDigGarbage
+  | "dig-drop" -> KDigDrop
+  | "len-inc" -> KLenInc
+  | "len-drop" -> KLenDrop
+  | "type-other" -> KTypeOther
+  | "type-garbage" -> KTypeGarbage
+  | "type-drop" -> KTypeDrop
+  | "status" -> KStatus (n_of_int (int_of_string (next ())))
+  | "loc-drop" -> KLocDrop
+  | "name-unknown" -> KNameUnknown
+  | _ -> failwith "corruption"
+
 let history toks =
   let t = ref toks in
   let next () = match !t with x :: r -> t := r; x | [] -> failwith "eol" in
@@ -92,7 +131,13 @@ let history toks =
   let pb = next () in
   let bit i = pb.[i] = '1' in
   let p = { p_dighdr = bit 0; p_range = bit 1; p_clen = bit 2; p_mount = bit 3; p_referrers = bit 4 } in
-  let _plain = next () in
+  let plain = next () in
+  (* options token: <plain bit>g.w.r.t.m<MaxMetadataBytes>; only the limit matters to the model *)
+  let maxmeta =
+    match String.rindex_opt plain 'm' with
+    | Some i -> (try int_of_string (String.sub plain (i + 1) (String.length plain - i - 1)) with _ -> 0)
+    | None -> 0 in
+  let limit = eff_limit (n_of_int maxmeta) in
   let rst = match nexti () with 0 -> RSUnknown | 1 -> RSSupported | _ -> RSUnsupported in
   let nm = nexti () in
   let mts = List.init nm (fun _ -> str_of_hex (next ())) in
@@ -101,18 +146,7 @@ let history toks =
     | "-" -> None
     | k ->
       let k = n_of_int (int_of_string k) in
-      let c = match next () with
-        | "dig-other" -> KDigOther (str_of_hex (next ()))
-        | "dig-garbage" -> KDigGarbage
-        | "dig-drop" -> KDigDrop
-        | "len-inc" -> KLenInc
-        | "len-drop" -> KLenDrop
-        | "type-other" -> KTypeOther
-        | "type-garbage" -> KTypeGarbage
-        | "type-drop" -> KTypeDrop
-        | "status" -> KStatus (n_of_int (nexti ()))
-        | "loc-drop" -> KLocDrop
-        | _ -> failwith "corruption" in
+      let c = parse_corruption next (next ()) in
       Some (k, c) in
   let np = nexti () in
   let pool = Array.init np (fun _ ->
@@ -152,7 +186,7 @@ let history toks =
     | "bresolve" -> OBlobResolve (str_of_hex (next ()))
     | "bfetchref" -> OBlobFetchRef (str_of_hex (next ()))
     | x -> failwith ("op " ^ x)) in
-  let (_, out) = run_history h parse_mt subject_of main other mts p kor other_blobs rst ops in
+  let (_, out) = run_history h parse_mt subject_of main other mts limit p kor other_blobs rst ops in
   let bad = ref 0 in
   let parts = List.map (fun (tr, res) ->
     let rs = show_result res in
@@ -164,12 +198,18 @@ let history toks =
 
 let seek toks =
   match toks with
-  | c :: pb :: _via :: nm :: rest ->
+  | c :: pb :: _via :: rest ->
     let content = str_of_hex c in
-    let ranged = pb.[1] = '1' in
+    let bit i = pb.[i] = '1' in
+    let p = { p_dighdr = bit 0; p_range = bit 1; p_clen = bit 2; p_mount = bit 3; p_referrers = bit 4 } in
+    let ranged = p.p_range in
     let t = ref rest in
     let next () = match !t with x :: r -> t := r; x | [] -> failwith "eol" in
-    let nm = int_of_string nm in
+    (* K = "-" | <j> <field> [arg]: the answer to the j-th Range request is corrupted *)
+    let kor = match next () with
+      | "-" -> None
+      | j -> let f = next () in Some (nat_of_int (int_of_string j), parse_corruption next f) in
+    let nm = int_of_string (next ()) in
     let ms = Array.init nm (fun _ ->
       let ch = n_of_int (int_of_string (next ())) in
       let e = next () = "1" in { bm_chunk = ch; bm_eofd = e }) in
@@ -178,15 +218,16 @@ let seek toks =
     let ops = List.init n (fun _ ->
       match next () with
       | "r" -> SRead (n_of_int (int_of_string (next ())))
-      | "s" -> let off = z_of_int (int_of_string (next ())) in
+      | "s" -> let off = z_of_string (next ()) in
         let w = match next () with "0" -> SeekStart | "1" -> SeekCurrent | _ -> SeekEnd in
         SSeek (off, w)
       | _ -> SClose) in
     (* without range support the client returns the plain body: only the reads of the script run *)
     let ops = if ranged then ops else List.filter (fun o -> match o with SRead _ -> true | _ -> false) ops in
     (* the reader's size is the size of the descriptor: Fetch's argument, or the one blob
-       FetchReference derives (RemoteRefine.blob_fetchref_hit: len content in every profile) *)
-    let out = rsc_run modes content (rsc_open content (n_of_int (List.length content))) ops in
+       FetchReference derives (RemoteRefine.blob_fetchref_hit: len content in every profile);
+       the digest in the Range request's URL plays no role in the answers *)
+    let out = rsc_run modes (range_srv p [] content kor) (rsc_open content (n_of_int (List.length content))) ops in
     String.concat " | " ((if ranged then "seeker" else "noseeker") :: List.map (fun (rq, o) ->
       (match rq with
        | [] -> "-"
